@@ -28,6 +28,7 @@ def extras(prop, rep):
         t.start()
     for t in ths:
         t.join()
+    selfval.drop_slots()
     summary = {"mutants": 0, "caught": 0, "missed": [], "benign": 0, "silent": 0, "false_alarms": [], "skipped": [], "errors": []}
     details = []
     for r in out:
